@@ -119,6 +119,16 @@ Theorem C14_key_order_total : forall a b : entry,
 Proof. exact entry_ltb_seq_total. Qed.
 Print Assumptions C14_key_order_total.
 
+Theorem C14_wfq_store_keys_distinct : forall (cfg : wcfg), wcfg_ok cfg -> forall s,
+  wreach cfg s -> distinct_keys entry_ltb (items (store s)).
+Proof. exact wfq_store_distinct_keys. Qed.
+Print Assumptions C14_wfq_store_keys_distinct.
+
+Theorem C14_vc_store_keys_distinct : forall (cfg : vcfg), vcfg_ok cfg -> forall s,
+  vreach cfg s -> distinct_keys entry_ltb (items (store s)).
+Proof. exact vc_store_distinct_keys. Qed.
+Print Assumptions C14_vc_store_keys_distinct.
+
 Theorem C14_pq_refines_heapq_pop : forall (h l : list entry),
   heap_inv entry_ltb h -> Permutation h l -> distinct_keys entry_ltb l ->
   forall m l', pq_pop l = Some (m, l') ->
